@@ -60,6 +60,99 @@ def run(ctx: Ctx):
     r18_3(ctx, E)
     r18_4(ctx, E)
     r18_5(ctx, E)
+    r18_6(ctx)
+    r18_7(ctx, E)
+
+
+def r18_7(ctx: Ctx, E: Effects, rule="R18.7"):
+    """A copy built by cloning the instance dictionary wholesale (`new.__dict__.update(self.__dict__)`, copy.copy(self))
+    shares every attribute it does not reassign.  That is harmless for attributes nothing ever changes after
+    construction; an attribute that some method other than __init__ rebinds or mutates (a cache of views, a list that
+    grows) is then one object seen by original and copy."""
+    import re as _re
+    n = 0
+    for api in COPY_APIS:
+        f = ctx.repo.func(api, required=False)
+        if f is None or f.cls is None:
+            continue
+        clones = []
+        for c in calls_in(f.node):
+            t = norm(c).replace(" ", "")
+            if _re.search(r"\.__dict__\.update\(self\.__dict__\)", t) or t in ("copy.copy(self)", "copy(self)") and "copy" in f.module.imports:
+                clones.append(c)
+        for st in walk_no_nested(f.node):
+            if isinstance(st, ast.Assign) and isinstance(st.targets[0], ast.Attribute) and st.targets[0].attr == "__dict__" \
+                    and "self.__dict__" in norm(st.value):
+                clones.append(st)
+        if not clones:
+            continue
+        n += 1
+        first = min(getattr(c, "lineno", 0) for c in clones)
+        reassigned = {st.targets[0].attr for st in walk_no_nested(f.node) if isinstance(st, ast.Assign) and isinstance(st.targets[0], ast.Attribute)
+                      and norm(st.targets[0].value) != "self" and st.lineno >= first}
+        # attributes changed after construction by some method of the class (or of a base class)
+        changed: Dict[str, str] = {}
+        classes = [f.cls] + [ctx.repo.classes[b] for b in getattr(f.cls, "bases_resolved", []) if b in ctx.repo.classes]
+        for cl in classes:
+            for m in cl.methods.values():
+                if m.name in ("__init__", "__new__") or m is f:
+                    continue
+                for e in E.direct(m):
+                    if e.root[0] != "self":
+                        continue
+                    mm = _re.search(r"(?:self|\?)\.(_?[A-Za-z]\w*)", e.target)
+                    if mm and mm.group(1) != "__dict__":
+                        changed.setdefault(mm.group(1), "%s (%s)" % (m.name, e.describe()[:90]))
+                for c in calls_in(m.node):
+                    t = norm(c).replace(" ", "")
+                    mm = _re.match(r"self\.__dict__\.setdefault\('(\w+)',(.*)\)$", t)
+                    if mm and not _re.match(r"^(None|\d+|'[^']*'|True|False)$", mm.group(2)):
+                        changed.setdefault(mm.group(1), "%s (`%s`)" % (m.name, norm(c)[:70]))
+                for st in walk_no_nested(m.node):
+                    if isinstance(st, ast.Assign) and isinstance(st.targets[0], ast.Subscript) and norm(st.targets[0].value) == "self.__dict__" \
+                            and isinstance(st.targets[0].slice, ast.Constant):
+                        changed.setdefault(str(st.targets[0].slice.value), "%s (`%s`)" % (m.name, norm(st)[:70]))
+        shared = sorted(a for a in changed if a not in reassigned)
+        ctx.ob(rule, f, clones[0], not shared,
+               "a copy made by cloning the instance dictionary reassigns every attribute that is rebound or mutated after "
+               "construction (attributes reassigned on the copy: %s)" % sorted(reassigned)
+               + ("" if not shared else " -- `%s` is shared by original and copy and is changed by %s" % (shared[0], changed[shared[0]])),
+               node=clones[0], shared=shared)
+    ctx.extra["copy_apis_cloning_the_instance_dict"] = n
+
+
+def r18_6(ctx: Ctx, rule="R18.6"):
+    """A deep copy isolates names and residue labels: they live on the topology, so every value deep_copy returns is a
+    molecule built on a clone of the receiver's topology (never on the topology itself, never through the shallow copy)."""
+    f = ctx.func("Molecule.deep_copy")
+    from ..pat import expand_single_defs as _x
+    rets = [r for r in walk_no_nested(f.node) if isinstance(r, ast.Return) and r.value is not None]
+    for r in rets:
+        v = _x(f.node, r.value)
+        ok = und = False
+        why = ""
+        if isinstance(v, ast.Call) and call_name(v) == "Molecule" and v.args:
+            top = v.args[0]
+            ttxt = norm(top).replace(" ", "")
+            if ttxt in ("self._molecule_top.copy()", "self.molecule_top.copy()", "copy.deepcopy(self._molecule_top)", "deepcopy(self._molecule_top)",
+                        "copy.deepcopy(self.molecule_top)", "deepcopy(self.molecule_top)"):
+                ok = True
+            elif ttxt in ("self._molecule_top", "self.molecule_top"):
+                why = "the new molecule is built on the receiver's own topology object"
+            else:
+                und = True
+        elif isinstance(v, ast.Call) and isinstance(v.func, ast.Attribute) and norm(v.func.value) == "self" and v.func.attr == "copy":
+            why = "`%s` is the shallow copy, which shares the topology (names, residue labels) with the receiver" % norm(v)
+        else:
+            und = True
+        if und:
+            ctx.ob(rule, f, r, True, "the value returned by deep_copy is not built by Molecule(<topology>, ...); not decided on this tree",
+                   undecided=True, node=r)
+        else:
+            ctx.ob(rule, f, r, ok, "every molecule returned by deep_copy is built on a clone of the topology (names and residue labels "
+                   "of the copy are its own)" + ("" if ok else " -- " + why), node=r)
+    ctx.floor(rule, len(rets), 1, "return statements of Molecule.deep_copy")
+    # the clone itself: MoleculeTop.copy builds new AtomTop objects (checked as a copy API by R18.1)
 
 
 def r18_1(ctx: Ctx, E: Effects, rule="R18.1"):
